@@ -19,6 +19,8 @@ V = os.path.dirname(os.path.dirname(os.path.abspath(__file__)))
 def one(name):
     d = os.path.join(V, "seeded", name)
     meta = json.load(open(os.path.join(d, "meta.json")))
+    if meta.get("not_a_violation"):
+        return name, "not-a-violation (%s)" % meta["not_a_violation"][:60], []
     checks = meta.get("detected_by") or [meta["property"]]
     wt = tempfile.mkdtemp(prefix="selftest_")
     os.rmdir(wt)
